@@ -89,6 +89,11 @@ type Session struct {
 	stalled bool
 	unstall chan struct{}
 	mqFail  int // the next mqFail writes of the gateway to the broker return an error
+
+	// Segment > 0: everything the broker sends arrives in two TCP segments, the second one Segment later.
+	Segment    time.Duration
+	segQ       [][]byte
+	segRunning bool
 }
 
 // FailBrokerWrites makes the next n writes of the gateway on the broker connection fail (nothing is delivered).
@@ -271,7 +276,46 @@ func (s *Session) SNSend(b []byte) { s.SN.A.Write(b) }
 func (s *Session) SNSendP(p *snref.Pkt) { s.SN.A.Write(p.Encode()) }
 
 // MQSend sends bytes from the broker to the gateway.
-func (s *Session) MQSend(b []byte) { s.MQ.B.Write(b) }
+func (s *Session) MQSend(b []byte) {
+	if s.Segment <= 0 {
+		s.MQ.B.Write(b)
+		return
+	}
+	// TCP segmentation: every packet arrives in two pieces, the second one Segment later (longer than the
+	// gateway's 100 ms connection poll interval when Segment says so). A sender goroutine keeps the byte
+	// order; no lock is held while it sleeps (a goroutine waiting for a sync.Mutex would freeze a synctest clock).
+	s.mu.Lock()
+	s.segQ = append(s.segQ, append([]byte(nil), b...))
+	start := !s.segRunning
+	s.segRunning = true
+	s.mu.Unlock()
+	if !start {
+		return
+	}
+	s.W.wg.Add(1)
+	go func() {
+		defer s.W.wg.Done()
+		for {
+			s.mu.Lock()
+			if len(s.segQ) == 0 {
+				s.segRunning = false
+				s.mu.Unlock()
+				return
+			}
+			p := s.segQ[0]
+			s.segQ = s.segQ[1:]
+			s.mu.Unlock()
+			if len(p) < 2 {
+				s.MQ.B.Write(p)
+				continue
+			}
+			k := 1 + len(p)/3
+			s.MQ.B.Write(p[:k])
+			time.Sleep(s.Segment)
+			s.MQ.B.Write(p[k:])
+		}
+	}()
+}
 
 // StallBroker makes the broker stop reading from now on; the link then holds at most capacity bytes, like
 // a TCP connection with full buffers: the gateway's writes block.
